@@ -166,7 +166,7 @@ def run_shard(args):
         return {'lane': lane_name, 'shard': shard, 'error': ''.join(traceback.format_exception(type(e), e, e.__traceback__))}
 
 
-CASE_TIME_LIMIT = 30          # seconds; normal cases take milliseconds
+CASE_TIME_LIMIT = 90          # seconds; normal cases take milliseconds
 WORKER_MEMORY_LIMIT = 4 << 30  # bytes of address space per worker process
 
 
